@@ -137,8 +137,8 @@ u = unit("parse.flush.wf", "janet_parser_flush leaves a well-formed parser: empt
      "so that later queries (parser/state, produce) stay inside the args stack - never a crash",
      "h_flush", ["parse_flush.c"], tier="thorough", enforce=["janet_parser_flush/janet_parser_flush_c"],
      mutants=[dict(name="flush-keeps-pending", file="parse.c", find="    parser->bufcount = 0;\n    parser->pending = 0;\n", replace="    parser->bufcount = 0;\n", expect="postcondition")])
-if not os.environ.get("C11_ENABLE_ALL"):
-    u["disabled_reason"] = FLUSH_DEFECT
+u["tier"] = "quick"   # the defect it found was repaired in /repo (e2ad04e); see known_findings.json
+u["mutants"].append(dict(name="flush-keeps-root-argn", file="parse.c", find="    parser->states[0].argn = 0;\n", replace="", expect="postcondition"))
 
 
 CONS_STUBS = ["realloc:realloc_stub", "janet_tuple_begin:tuple_begin_stub", "janet_tuple_end:tuple_end_stub", "janet_tuple_n:tuple_n_stub", "janet_array:array_stub",
@@ -156,8 +156,9 @@ CONS_MUT = {
  "root": [dict(name="close-at-root-unchecked", file="parse.c", find="            if (p->statecount == 1) {\n                delim_error(p, 0, c,", replace="            if (p->statecount == 0) {\n                delim_error(p, 0, c,", expect="C11|pointer|bounds"),
           dict(name="close-tuple-leaves-arg", file="parse.c", find="    for (int32_t i = state->argn - 1; i >= 0; i--)\n        ret[i] = p->args[--p->argcount];", replace="    for (int32_t i = state->argn - 1; i > 0; i--)\n        ret[i] = p->args[--p->argcount];", expect="C11")],
 }
-CONS_UNITS = [(c, c, {}) for c in CONSUMERS if c != "root"] + [("root_open", "root", {"tier": "thorough", "timeout": 600}),
-              ("root_close", "root", {"defines": ["-DARGMAX=2", "-DBUFMAX=2"], "tier": "thorough", "timeout": 900})]
+# root on closing delimiters (close_tuple/array/struct/table + popstate + delim_error; harness h_consumer_root_close exists) did not finish within the
+# 10 min cap even with capacities 2 - not delivered
+CONS_UNITS = [(c, c, {}) for c in CONSUMERS if c != "root"] + [("root_open", "root", {"tier": "thorough", "timeout": 600})]
 CONS_MUT["root_open"] = [dict(name="unexpected-char-accepted", file="parse.c", find='                p->error = "unexpected character";\n                return 1;\n', replace="", expect="C11")]
 CONS_MUT["root_close"] = CONS_MUT["root"]
 FIXEDCAP = ("longstring", "root_open", "root_close", "tokenchar", "escapeu", "stringchar", "atsign")
